@@ -37,6 +37,75 @@ SPECIAL = [
     "module p {\n  module q {\n    let r = (from t1 | take 1)\n  }\n  let r = (from t2 | take 1)\n}\nlet r = (from t3 | take 1)\nfrom r | join a = p.r (==id) | join b = p.q.r (==id)",
     "module a {\n  let f = x -> x + 1\n}\nmodule b {\n  let f = x -> x + 2\n}\nfrom t | derive {u = a.f v, w = b.f v}",
 ]
+
+
+def many_names_programs():
+    """Constructs that carry a COLLECTION of names through the compiler (sets of excluded columns, partitions, named
+    arguments, declarations of a module, columns of relation literals, join conditions ..), each written with five
+    or six members: if any stage walks such a collection in hash order, the 120+ possible orders make a difference
+    between two runs practically certain.  -> [(source, target)]"""
+    five = ["e", "d", "c", "b", "a"]
+    six = five + ["f"]
+    out = []
+    L5 = ", ".join(five)
+    rels = {
+        "table": "from t",
+        "after_exclusion": "from t | select !{x}",
+        "alias": "from r = t",
+        "let": "let s = (from t)\nfrom s",
+    }
+    tails = ["", " | take 3", " | join u (==id)", " | append (from u | select {a, b})", " | filter a > 1 | sort b"]
+    excl = ["select !{!{%s}}" % L5, "select !{!{%s}, c}" % L5, "select !{c, !{%s}}" % L5, "select !{!{%s}} | select !{b}" % L5,
+            "select !{%s}" % L5, "select !{%s} | select !{g, h}" % L5, "select !{!{!{%s}}}" % L5,
+            "derive {z = a + 1} | select !{!{%s}}" % L5, "select {t.*} | select !{!{%s}}" % L5]
+    for rn, rel in rels.items():
+        for ex in excl:
+            for tl in tails:
+                for tg in ("sql.sqlite", "sql.duckdb", "sql.bigquery", "sql.postgres"):
+                    if tg != "sql.sqlite" and (tl not in ("", " | take 3") or rn == "alias"):
+                        continue
+                    out.append((rel + " | " + ex + tl, tg))
+    # exclusion inside a let that is read twice, and on both sides of a join
+    out.append(("let s = (from t | select !{!{%s}})\nfrom s | join s2 = s (==a) | select {s.b, s2.c}" % L5, "sql.sqlite"))
+    out.append(("from t | select !{!{%s}} | join (from u | select !{!{%s}}) (==a)" % (L5, L5), "sql.generic"))
+    out.append(("from t | join u (==id) | select !{t.%s}" % ", t.".join(five), "sql.duckdb"))
+    out.append(("from t | join u (==id) | select !{t.e, u.d, t.c, u.b, t.a}", "sql.snowflake"))
+    out.append(("from t | join u (==id) | select !{!{t.e, u.d, t.c, u.b, t.a}}", "sql.sqlite"))
+    # partitions / keys / distinct
+    for tg in ("sql.sqlite", "sql.postgres", "sql.duckdb", "sql.clickhouse", "sql.mssql"):
+        out.append(("from t | group {%s} (take 1)" % L5, tg))
+        out.append(("from t | group {%s} (sort {f} | take 2)" % L5, tg))
+        out.append(("from t | group {%s} (aggregate {n = count this})" % L5, tg))
+        out.append(("from t | group {%s} (window rolling:2 (derive {s = sum f}))" % L5, tg))
+        out.append(("from t | select {%s} | group {%s} (take 1)" % (L5, L5), tg))
+        out.append(("from t | sort {%s} | take 3 | derive {g = a + 1} | filter g > 2" % L5, tg))
+    # join conditions, named arguments, many declarations, relation literals, interpolations, tuples
+    out.append(("from t | join u (%s)" % " && ".join("==" + n for n in five), "sql.sqlite"))
+    out.append(("from t | join side:left u (%s) | select {t.a, u.b}" % " && ".join("t.%s == u.%s" % (n, n) for n in five), "sql.generic"))
+    out.append(("let f = x %s -> x + %s\nfrom t | derive {y = (f 1 %s)}" % (" ".join(n + ":0" for n in six), " + ".join(six), " ".join("%s:%d" % (n, i) for i, n in enumerate(five))), "sql.sqlite"))
+    out.append(("let f = x %s -> x + %s\nfrom t | derive {y = (f 1 %s)}" % (" ".join(n + ":0" for n in six), " + ".join(six), " ".join("%s:nosuch_%s" % (n, n) for n in five)), "sql.sqlite"))
+    out.append(("\n".join("let %s = (from t_%s | take 2)" % (n, n) for n in six) + "\nfrom a" + "".join(" | join %s (==id)" % n for n in six[:4] if n != "a") + " | append f", "sql.sqlite"))
+    out.append(("module m {\n" + "\n".join("  let %s = (from t_%s | take 2)" % (n, n) for n in six) + "\n}\nfrom m.e" + "".join(" | join m.%s (==id)" % n for n in ("d", "c", "b", "a")), "sql.generic"))
+    out.append(("from [{%s}] | select !{c}" % ", ".join("%s = %d" % (n, i) for i, n in enumerate(six)), "sql.sqlite"))
+    out.append(("from [{%s}] | select !{!{e, c, a}}" % ", ".join("%s = %d" % (n, i) for i, n in enumerate(six)), "sql.sqlite"))
+    out.append(('from_text format:json \'[{%s}]\' | select !{c}' % ", ".join('"%s": %d' % (n, i) for i, n in enumerate(six)), "sql.sqlite"))
+    out.append(('from_text format:json \'{"columns": [%s], "data": [[%s]]}\'' % (", ".join('"%s"' % n for n in six), ", ".join("1" for _ in six)), "sql.sqlite"))
+    out.append(('from_text format:csv """\n%s\n1,2,3,4,5,6\n"""' % ",".join(six), "sql.sqlite"))
+    out.append(('from t | derive {x = s"F(%s)"} | select {x, y = f"%s"}' % (", ".join("{%s}" % n for n in six), "-".join("{%s}" % n for n in six)), "sql.sqlite"))
+    out.append(("from s = s\"SELECT %s FROM tbl\" | select !{c}" % ", ".join(six), "sql.sqlite"))
+    out.append(("from s = s\"SELECT %s FROM tbl\" | select !{!{%s}}" % (", ".join(six), L5), "sql.sqlite"))
+    out.append(("from t | select {x = {%s}} | select {x.e, x.a}" % L5, "sql.sqlite"))
+    out.append(("from t | select {%s} | select {this.*}" % L5, "sql.sqlite"))
+    out.append(("from t | select {%s} | join u (==a) | select {t.*, u.*}" % L5, "sql.duckdb"))
+    out.append(("from t | aggregate {%s}" % ", ".join("s_%s = sum %s" % (n, n) for n in six), "sql.sqlite"))
+    out.append(("from t | sort {%s} | select {z = 1} | take 5" % L5, "sql.sqlite"))
+    out.append(("from t | select {%s} | filter nosuch > 1" % L5, "sql.sqlite"))
+    out.append(("from t | join u (==id) | join v (==id) | join w (==id) | select {id}", "sql.sqlite"))
+    out.append(("type ty = {%s}\nfrom t" % ", ".join("%s = int" % n for n in six), "sql.sqlite"))
+    out.append(("from t | loop (filter a > 1 | select {%s})" % L5, "sql.sqlite"))
+    return out
+
+
 NOISE_ERR = "from t | select {a} | filter nosuchcolumn > 1"
 NOISE_PANIC = "from t1\nselect{t1.s,n6=a}\nselect{n6,s, n7 = n6}\nselect {n6, n8 = s}\nfilter (2 > (n6 ))\nsort {n6, n8}\n"
 
@@ -369,6 +438,8 @@ def run(tier, seed):
     for _ in range(300 if tier == "quick" else 6000):
         progs.append(gtext.mutate(rng, rng.choice(base), rng.choice([1, 2])))
     items = [(p, targets[i % len(targets)]) for i, p in enumerate(progs)]
+    many = many_names_programs()
+    items = many + items
     K = 8 if tier == "quick" else 32
     res = core.run_shards(_history_shard, [dict(items=items[i::N], K=K) for i in range(N)])
     obs = {}
@@ -425,6 +496,7 @@ def run(tier, seed):
         "rule": "each program's sequential model is its outcome (SQL or full error incl. display, RQ JSON, formatted text) as the first call of a fresh process; it is then re-run K times in a long-lived process with failing and panicking calls in between, in two more fresh processes, and from 16 threads released by a barrier (half of the stress runs being the process's first compile); "
                 "non-trivial = programs whose outcome is an error text, or that have named arguments / several table instances / query-header arguments (places where hash-map iteration order could show)",
         "repetitions_per_program": K,
+        "many_names_programs": len(many),
         "samples": [SPECIAL[0], SPECIAL[2], progs[-1]],
     }
     run.coverage.update(obs)
